@@ -12,13 +12,13 @@ Rec == ndJsonDeserialize(IOEnv.TRACE)
 VARIABLES l, rout, rstat, conf, blk, panicked
 tvars == <<vars, l, rout, rstat, conf, blk, panicked>>
 
-EmptyProg == [steps |-> <<>>, part |-> FALSE, neg |-> "none", maxRuns |-> 100, strat |-> "drop", maxK |-> 20, maxEnum |-> 100]
+EmptyProg == [steps |-> <<>>, part |-> FALSE, negs |-> <<>>, maxRuns |-> 100, strat |-> "drop", maxK |-> 20, maxEnum |-> 100]
 ToM(r) == [cap |-> r.cap, kl |-> ToSet(r.kl)]
 TInit == /\ l = 1 /\ prog = EmptyProg /\ stream = <<>> /\ out = <<>> /\ nextRunId = 1 /\ dropped = 0 /\ evicted = 0
          /\ runs = [k \in Keys \cup {"all"} |-> <<>>]
          /\ rout = <<>> /\ rstat = [nruns |-> 0, maxkl |-> 0] /\ conf = TRUE /\ blk = 0 /\ panicked = FALSE
 IsEv(n) == l <= Len(Rec) /\ Rec[l].ev = n /\ l' = l + 1
-P0(r) == [steps |-> r.steps, part |-> r.part, neg |-> r.neg, maxRuns |-> r.maxRuns, strat |-> r.strat, maxK |-> r.maxK, maxEnum |-> r.maxEnum]
+P0(r) == [steps |-> r.steps, part |-> r.part, negs |-> r.negs, maxRuns |-> r.maxRuns, strat |-> r.strat, maxK |-> r.maxK, maxEnum |-> r.maxEnum]
 TReset == /\ IsEv("reset")
           /\ prog' = P0(Rec[l].prog)
           /\ stream' = <<>> /\ out' = <<>> /\ nextRunId' = 1 /\ dropped' = 0 /\ evicted' = 0
